@@ -60,6 +60,51 @@ def confirm(src, sid, prop):
     return ok
 
 
+def confirm_loom(src, sid, prop, target, filt, demo_name='demo.rs'):
+    """Demonstration is a loom model to be appended to src/<target>; run with --cfg loom --lib <filt>."""
+    wt = f'/tmp/seedconfirm-{sid}'
+    sh(['git', '-C', '/repo', 'worktree', 'remove', '--force', wt])
+    rc, out = sh(['git', '-C', '/repo', 'worktree', 'add', '--detach', wt, 'HEAD'])
+    assert rc == 0, out
+    res = {'id': sid, 'property': prop, 'base_commit': sh(['git', '-C', '/repo', 'rev-parse', '--short', 'HEAD'])[1].strip(),
+           'demo_kind': f'loom model appended to src/{target}, RUSTFLAGS="--cfg loom" cargo test --offline --lib {filt}'}
+    env_cmd = f'RUSTFLAGS="--cfg loom" cargo test --offline --lib {filt} -- --test-threads=1'
+    try:
+        patch = os.path.join(src, 'patch.diff')
+        demo = os.path.join(src, demo_name)
+        tfile = os.path.join(wt, 'src', target)
+        orig = open(tfile).read()
+        open(tfile, 'w').write(orig + '\n' + open(demo).read())
+        rc, out = sh(env_cmd, cwd=wt)
+        res['demo_passes_without_patch'] = rc == 0 and 'test result: ok' in out and ' 0 passed' not in out
+        open(tfile, 'w').write(orig)
+        rc, out = sh(['git', 'apply', patch], cwd=wt)
+        res['patch_applies'] = rc == 0
+        rc, out = sh(['cargo', 'test', '--offline', '--workspace', '--no-fail-fast'], cwd=wt)
+        res['suite_passes_with_patch'] = rc == 0
+        res['suite_tail'] = out.strip().splitlines()[-3:]
+        patched = open(tfile).read()
+        open(tfile, 'w').write(patched + '\n' + open(demo).read())
+        rc, out = sh(env_cmd, cwd=wt)
+        res['demo_fails_with_patch'] = rc != 0
+        res['demo_fail_tail'] = [l for l in out.splitlines() if 'panicked' in l or 'Causality' in l or 'FAILED' in l][:4]
+        res['ran'] = [env_cmd + ' (without patch, with patch)', 'cargo test --offline --workspace --no-fail-fast (with patch)']
+    finally:
+        sh(['git', '-C', '/repo', 'worktree', 'remove', '--force', wt])
+    ok = all(res.get(k) for k in ('demo_passes_without_patch', 'patch_applies', 'demo_fails_with_patch', 'suite_passes_with_patch'))
+    res['confirmed'] = ok
+    if ok:
+        d = os.path.join(SEEDED, sid)
+        os.makedirs(d, exist_ok=True)
+        shutil.copy(patch, os.path.join(d, 'patch.diff'))
+        shutil.copy(demo, os.path.join(d, 'demo.rs'))
+        notes = os.path.join(src, 'notes.md')
+        res['needs'] = open(notes).read()[:1500] if os.path.exists(notes) else ''
+        json.dump(res, open(os.path.join(d, 'meta.json'), 'w'), indent=1)
+    print(json.dumps({k: v for k, v in res.items() if k != 'needs'}))
+    return ok
+
+
 def run(sid, props):
     d = os.path.join(SEEDED, sid)
     meta = json.load(open(os.path.join(d, 'meta.json')))
@@ -85,5 +130,7 @@ def run(sid, props):
 if __name__ == '__main__':
     if sys.argv[1] == 'confirm':
         sys.exit(0 if confirm(sys.argv[2], sys.argv[3], sys.argv[4]) else 1)
+    elif sys.argv[1] == 'confirm-loom':
+        sys.exit(0 if confirm_loom(*sys.argv[2:8]) else 1)
     elif sys.argv[1] == 'run':
         run(sys.argv[2], sys.argv[3:])
